@@ -14,6 +14,7 @@ from __future__ import annotations
 
 import json
 import math
+import random
 from fractions import Fraction as Fr
 from types import SimpleNamespace
 
@@ -74,6 +75,10 @@ def backend_cfg(c, backend, observables):
     return T.make_config(c, "sv" if backend == "sv" else "mps", observables, **kw)
 
 
+DEMO_NOISY = dict(D=600, dtq=Fr(10), dt=10.0, dflt=[(Fr(1), 1.0)],
+                  obs=[[(Fr(i, 60), i / 60) for i in range(61)], None, [(Fr(i, 60), i / 60) for i in range(0, 61, 5)]])
+
+
 def real_run(c, backend):
     """Run the real bookkeeping. The last entry of c['obs'] is given to the state-tag probe.
     Returns dict(status, grid, times=[...per observable], tags=[...]) ."""
@@ -92,12 +97,39 @@ def real_run(c, backend):
     if st != "ok":
         return dict(status="err " + tt)
     nq = 2 if backend != "mps" or c["D"] % 2 else 3
-    data = T.zero_data(nsteps, nq, tt)
-    res, log = T.run_stubbed(backend, data, cfg)
+    if backend == "noisy":
+        plan, rate = jump_plan(c, tt)
+        import torch
+        lind = [math.sqrt(rate) * torch.eye(2, dtype=torch.complex128)]
+        data = T.zero_data(nsteps, nq, tt, lindblad_ops=lind)
+        res, log = T.run_stubbed(backend, data, cfg, jump_plan=plan, rate=rate)
+    else:
+        data = T.zero_data(nsteps, nq, tt)
+        res, log = T.run_stubbed(backend, data, cfg)
     times = [T.result_times(res, o) for o in observables]
     tags = list(getattr(res, probe.tag)) if probe.tag in res.get_result_tags() else []
     stats = res.get_result_times("statistics") if "statistics" in res.get_result_tags() else []
     return dict(status="ok", grid=tt, nsteps=nsteps, times=times, tags=tags, log=log, stats=stats, nq=nq)
+
+
+def jump_plan(c, tt):
+    """Planned quantum-jump times of a noisy emu-mps run (absolute ns) and the decay rate of the stub
+    evolution: jumps 0.1-0.9 ns before the end of steps whose end is a requested evaluation time (the jump is
+    then located inside the last ns of the step), plus jumps in the middle and just after the start of steps."""
+    rng = random.Random(c["D"] * 1000003 + len(tt))
+    last = tt[-1]
+    req = set()
+    for j in range(len(c["obs"])):
+        for _, x in eff_times(c, j):
+            req.add(x)
+    ends = [k for k in range(1, len(tt)) if tt[k] - tt[k - 1] > 1.5 and any(abs(tt[k] / last - x) <= 1e-10 for x in req)]
+    plan = []
+    for k in rng.sample(ends, min(len(ends), 4)):
+        plan.append(tt[k] - rng.choice([0.1, 0.3, 0.5, 0.9]))
+    for _ in range(rng.randint(0, 2)):
+        k = rng.randrange(1, len(tt))
+        plan.append(tt[k - 1] + rng.choice([0.5, 0.05]) * (tt[k] - tt[k - 1]))
+    return sorted(set(plan)), 3.0 / last
 
 
 def eff_times(c, j):
@@ -153,7 +185,7 @@ def oracle(c, backend, r):
     # the value is computed from the state of that grid index
     probe = r["times"][-1]
     fr = [g / last for g in tt]
-    if backend == "mps" or backend == "dmrg":
+    if backend != "sv":
         fr[0] = 0.0 / last
     acc, accs = 0.0, [0.0]
     for k in range(r["nsteps"]):
@@ -169,7 +201,7 @@ def oracle(c, backend, r):
     for t, (steps, a, idx) in zip(probe, r["tags"]):
         if not (0 <= steps < len(fr)) or fr[steps] != t:
             return f"value recorded at {t!r} was computed from the state after {steps} steps (grid time {tt[min(steps, len(tt) - 1)]!r})"
-        if backend != "dmrg" and a != accs[steps]:
+        if backend in ("sv", "mps") and a != accs[steps]:
             return f"value recorded at {t!r}: evolved time {a!r} != {accs[steps]!r}"
         if idx is not None and idx != steps:
             return f"value recorded at {t!r}: back-end step index {idx} != evolution steps {steps}"
@@ -198,7 +230,12 @@ SEP_WITNESS = dict(D=10, dtq=Fr(5), dt=5.0, dflt=[(Fr(1), 1.0)],
 
 
 def run_correspondence(rep, rng, n, tier):
-    cases = [(name, c, b) for name, c in fixed_cases() for b in BACKENDS]
+    cases = [(name, c, b) for name, c in fixed_cases() for b in BACKENDS + ["noisy"]]
+    cases.append(("noisy-jump-in-last-ns", DEMO_NOISY, "noisy"))
+    for i in range(n // 4):
+        c = T.gen_case(rng, max_points=300, small=(rng.random() < 0.3))
+        c["obs"] = c["obs"] + [T.gen_times(rng, c["D"], c["dtq"], rng.choice([2, 4, 8])) or [(Fr(1), 1.0)]]
+        cases.append(("gen", c, "noisy"))
     for i in range(n):
         c = T.gen_case(rng, max_points=(700 if tier == "quick" else 2000), small=(rng.random() < 0.3))
         # the probe observable gets its own times (or the default)
@@ -237,6 +274,8 @@ def run_correspondence(rep, rng, n, tier):
         if msg:
             rep.fail(f"[{name}] {msg}", _ser(c, b), klass=None)
         rep.hist("records_per_run", min(sum(len(t) for t in r["times"]), 30))
+        if b == "noisy":
+            rep.hist("noisy_jumps_per_run", min(len(r["log"].get("jumps", [])) - 1, 8))
         lines.append(T.run_line(c, b != "sv", r["nsteps"], r["grid"]))
         meta.append((name, c, b, r, "run"))
         if "grid" not in c and len(r["grid"]) <= 1500:
@@ -369,8 +408,9 @@ def call_level(rep, rng, n):
 def check(rep: Report, tier: str, seed: int) -> None:
     rep.rule = ("cases = (duration, dt, default times, observables' times, back-end) from one PRNG (generator of C21: durations "
                 "1..10000, dividing/non-dividing/oversized dt, rational and irrational fractions, 0 and 1, dt multiples, "
-                "near-duplicates 1e-16..1e-6 across observables and next to dt multiples, 'Full'), run on emu-sv, emu-mps TDVP "
-                "and DMRG with real Occupation/Energy/BitStrings observables and a probe observable reading the state tag; "
+                "near-duplicates 1e-16..1e-6 across observables and next to dt multiples, 'Full'), run on emu-sv, emu-mps TDVP, "
+                "DMRG and the noisy (quantum-jump) emu-mps back-end with scripted jumps inside the last ns of steps ending at a "
+                "requested time, with real Occupation/Energy/BitStrings observables and a probe observable reading the state tag; "
                 "plus the D7c/D20 witnesses, boundary cases, hand-built unreachable grids, and single calls of "
                 "_is_evaluation_time / is_evaluation_time / Observable.__call__ from arbitrary stored lists on a 1/16 "
                 "lattice hit at ±1e-10. non-trivial = more than one record; distinct = distinct (back-end, case)")
